@@ -212,6 +212,22 @@ static struct sort_key *all_sort_keys[] = {
 /* list of used sort keys */
 static LIST_HEAD(sort_keys);
 
+/*
+ * A key named twice ("-s total,total") must not be linked twice: list_add_tail()
+ * of a node that is already on the list turns it into a cycle that never
+ * reaches the head again and the comparison loops for ever.
+ */
+static bool key_is_used(struct list_head *head, struct list_head *entry)
+{
+	struct list_head *pos;
+
+	list_for_each(pos, head) {
+		if (pos == entry)
+			return true;
+	}
+	return false;
+}
+
 char *convert_sort_keys(char *sort_keys, enum avg_mode avg_mode)
 {
 	const char *default_sort_key[] = { OPT_SORT_KEYS, "total_avg", "self_avg" };
@@ -278,8 +294,10 @@ int report_setup_sort(const char *key_str)
 			if (strcmp(k, sort_key->name))
 				continue;
 
-			list_add_tail(&sort_key->list, &sort_keys);
-			count++;
+			if (!key_is_used(&sort_keys, &sort_key->list)) {
+				list_add_tail(&sort_key->list, &sort_keys);
+				count++;
+			}
 			break;
 		}
 
@@ -473,8 +491,10 @@ int report_setup_diff(const char *key_str)
 			if (strcmp(k, sort_key->name))
 				continue;
 
-			list_add_tail(&sort_key->list, &diff_keys);
-			count++;
+			if (!key_is_used(&diff_keys, &sort_key->list)) {
+				list_add_tail(&sort_key->list, &diff_keys);
+				count++;
+			}
 			break;
 		}
 
@@ -707,8 +727,10 @@ int report_setup_task(const char *key_str)
 			if (strcmp(k, sort_key->name))
 				continue;
 
-			list_add_tail(&sort_key->list, &task_keys);
-			count++;
+			if (!key_is_used(&task_keys, &sort_key->list)) {
+				list_add_tail(&sort_key->list, &task_keys);
+				count++;
+			}
 			break;
 		}
 
